@@ -39,6 +39,8 @@ struct Commit {
     fact_cache: u64,
     /// End of the last data record written before the commit returned (from the trace).
     end: i64,
+    /// Root slot (ROOT_A / ROOT_B) the commit wrote its root to (from the trace).
+    slot: i64,
 }
 
 const NO_COMMIT: Commit = Commit {
@@ -46,7 +48,23 @@ const NO_COMMIT: Commit = Commit {
     heads: 0,
     fact_cache: 0,
     end: 0,
+    slot: 0,
 };
+
+/// Slot of the most recent root write in the trace.
+fn last_root_slot() -> i64 {
+    let fs = vf::fs();
+    let mut slot = 0i64;
+    let mut j = 0;
+    while j < fs.n {
+        let ev = &fs.trace[j];
+        if ev.kind == vf::K_WRITE && (ev.off == vf::ROOT_A || ev.off == vf::ROOT_B) {
+            slot = ev.off;
+        }
+        j += 1;
+    }
+    slot
+}
 
 /// End offset of the data written so far (max end of recorded writes into the data region).
 fn data_end() -> i64 {
@@ -82,6 +100,7 @@ fn do_commit(w: &mut Writer, id: u8, fact_cache: u64) -> Commit {
         heads,
         fact_cache,
         end: data_end(),
+        slot: last_root_slot(),
     }
 }
 
@@ -245,10 +264,70 @@ fn set_slot_len(img: &mut Img, slot: i64, v: u32) {
     }
 }
 
+/// Per-harness variant of the checks (monomorphised, so that the vacuity witnesses of a variant
+/// exist only in the harnesses that can reach them).
+trait Mode {
+    /// Additional checks on the reopened writer; `early` = recovered commit 1 before it returned.
+    fn reopened(w: &Writer, early: bool);
+    /// `Writer::open` failed (allowed only when no commit had returned: asserted by the caller).
+    fn failed();
+}
+
+/// Runs that start with `create` on an empty file.
+struct Scratch;
+impl Mode for Scratch {
+    fn reopened(_w: &Writer, early: bool) {
+        kani::cover!(early, "first commit recovered although it had not returned");
+    }
+    fn failed() {
+        kani::cover!(true, "crash inside the first commit: open fails");
+    }
+}
+
+/// Runs that start from a disk image holding at least one returned commit.
+struct Restarted;
+impl Mode for Restarted {
+    fn reopened(_w: &Writer, _early: bool) {}
+    fn failed() {}
+}
+
+/// `Scratch` + re-load both slots with the real `File::load` + `Root::validate`: the recovered
+/// root is the content of the slot that the next commit will not overwrite, and its generation is
+/// strictly greater than the other slot's (if that one holds a valid root at all).
+struct ScratchSlots;
+impl Mode for ScratchSlots {
+    fn reopened(w: &Writer, early: bool) {
+        Scratch::reopened(w, early);
+        let ra = w.file.load::<Root>(ROOT_A).and_then(Root::validate);
+        let rb = w.file.load::<Root>(ROOT_B).and_then(Root::validate);
+        let (live, other) = if w.next_root == ROOT_B { (ra, rb) } else { (rb, ra) };
+        match live {
+            Ok(lv) => {
+                assert!(lv.generation == w.root.generation);
+                assert!(lv.heads == w.root.heads);
+                assert!(lv.fact_cache == w.root.fact_cache);
+                assert!(lv.free_offset == w.root.free_offset);
+            }
+            Err(_) => assert!(false),
+        }
+        match other {
+            Ok(o) => {
+                assert!(o.generation < w.root.generation);
+                kani::cover!(true, "both slots valid after the crash");
+            }
+            Err(_) => {
+                kani::cover!(true, "other slot invalid after the crash");
+            }
+        }
+    }
+    fn failed() {
+        Scratch::failed();
+    }
+}
+
 /// Reopen on the crash image with the real `Writer::open` and decide the property.
 /// `c[0]` is the "no commit" entry; `c[1..=k]` are the workload's commits in order.
-/// `deep`: also re-load both slots to decide the slot/generation relation.
-fn reopen_and_check(n: usize, c: &[Commit; 4], k: usize, deep: bool) {
+fn reopen_and_check<E: Mode>(n: usize, c: &[Commit; 4], k: usize) {
     let ghost: Img = vf::fs().vol; // final volatile image of the crash-free run
     assert!(!vf::fs().out_of_model);
     assert_falloc_fsync();
@@ -290,7 +369,7 @@ fn reopen_and_check(n: usize, c: &[Commit; 4], k: usize, deep: bool) {
                 set_slot_len(&mut im, vf::ROOT_A, ca[ia]);
                 set_slot_len(&mut im, vf::ROOT_B, cb[ib]);
                 vf::fs().vol = im;
-                check_open(&im, &ghost, n, c, k, lr, deep);
+                check_open::<E>(&im, &ghost, n, c, k, lr);
             }
             ib += 1;
         }
@@ -301,13 +380,13 @@ fn reopen_and_check(n: usize, c: &[Commit; 4], k: usize, deep: bool) {
     assert!(!vf::fs().out_of_model);
 }
 
-fn check_open(img: &Img, ghost: &Img, n: usize, c: &[Commit; 4], k: usize, lr: usize, deep: bool) {
+fn check_open<E: Mode>(img: &Img, ghost: &Img, n: usize, c: &[Commit; 4], k: usize, lr: usize) {
     let r = Writer::open(vf::fake_fd());
     match r {
         Err(_) => {
             // open may fail only if no commit had returned
             assert!(lr == 0);
-            kani::cover!(n < c[1].mark, "crash inside first commit: open fails");
+            E::failed();
         }
         Ok(w) => {
             // Which commit was recovered?  (heads offsets are pairwise distinct.)
@@ -350,37 +429,13 @@ fn check_open(img: &Img, ghost: &Img, n: usize, c: &[Commit; 4], k: usize, lr: u
             assert!(!w.data_dirty);
             assert!((w.next_root == ROOT_A) | (w.next_root == ROOT_B));
 
-            if deep {
-                let ra = w.file.load::<Root>(ROOT_A).and_then(Root::validate);
-                let rb = w.file.load::<Root>(ROOT_B).and_then(Root::validate);
-                // The recovered root sits in the slot that the next commit will NOT overwrite,
-                // and its generation is strictly greater than the other slot's (if that one holds
-                // a valid root at all).
-                let (live, other) = if w.next_root == ROOT_B { (ra, rb) } else { (rb, ra) };
-                match live {
-                    Ok(lv) => {
-                        assert!(lv.generation == w.root.generation);
-                        assert!(lv.heads == w.root.heads);
-                        assert!(lv.fact_cache == w.root.fact_cache);
-                        assert!(lv.free_offset == w.root.free_offset);
-                    }
-                    Err(_) => assert!(false),
-                }
-                match other {
-                    Ok(o) => {
-                        assert!(o.generation < w.root.generation);
-                        kani::cover!(true, "both slots valid after the crash");
-                    }
-                    Err(_) => {
-                        kani::cover!(true, "other slot invalid after the crash");
-                    }
-                }
-            }
+            // The next commit goes to the other slot: it cannot damage the recovered root.
+            assert!(w.next_root == other_root(c[got].slot));
+            E::reopened(&w, (got == 1) & (lr == 0));
 
             kani::cover!((got == lr) & (lr >= 1), "recovered the last returned commit");
             kani::cover!((got == lr + 1), "recovered the commit in progress");
             kani::cover!((got == lr) & (lr >= 1) & (n > c[lr].mark), "later commit in progress was discarded");
-            kani::cover!((got == 1) & (lr == 0), "first commit recovered although it had not returned");
             kani::cover!(n == vf::fs().n, "no crash until the end of the workload");
             core::mem::forget(w);
         }
@@ -434,12 +489,13 @@ fn c15_crash_three_commits() {
     c[3] = do_commit(&mut w, 3, b);
     core::mem::forget(w);
     let n: usize = kani::any();
-    reopen_and_check(n, &c, 3, true);
+    reopen_and_check::<Scratch>(n, &c, 3);
 }
 
-/// create; commit1; commit2; clean restart (real open); append; commit3; uncommitted append —
-/// crash anywhere.  Decides that a reopened writer continues the ping-pong (its first commit must
-/// not overwrite the root it was opened from) and continues the generation sequence.
+/// create; commit1; append; commit2; clean restart (real open); append; commit3; uncommitted
+/// append — crash anywhere in the second run.  Decides that a reopened writer continues the
+/// ping-pong (its first commit must not overwrite the root it was opened from) and continues the
+/// generation sequence.
 #[kani::proof]
 #[kani::unwind(50)]
 #[kani::stub(<StorageError as core::convert::From<buggy::Bug>>::from, no_bug_values)]
@@ -451,14 +507,22 @@ fn c15_crash_after_reopen() {
     let a = do_append(&mut w, 7);
     c[2] = do_commit(&mut w, 2, a);
     core::mem::forget(w);
+    // Clean shutdown: the last recorded call is the fdatasync of commit 2, so the disk holds
+    // exactly the volatile image.  The second run starts from it with an empty trace.
+    assert!(vf::fs().trace[vf::fs().n - 1].kind == vf::K_FDATASYNC);
+    assert_falloc_fsync();
+    let disk = vf::fs().vol;
+    vf::restart_from(disk);
+    c[1].mark = 0;
+    c[2].mark = 0;
     let mut w = reopen_clean();
+    assert!(w.root.heads == Some(c[2].heads));
     let b = do_append(&mut w, 9);
     c[3] = do_commit(&mut w, 3, b);
     let _ = do_append(&mut w, 11);
     core::mem::forget(w);
     let n: usize = kani::any();
-    kani::assume(n >= c[2].mark);
-    reopen_and_check(n, &c, 3, true);
+    reopen_and_check::<Restarted>(n, &c, 3);
 }
 
 /// create; commit1; commit2 whose root write is torn (concrete cut) and the process dies;
@@ -487,16 +551,17 @@ fn c15_crash_after_torn_recovery() {
     // The second run starts from that disk image; calls recorded so far are history: the trace
     // restarts with the image as its durable base.
     vf::restart_from(img1);
-    c[1].mark = 0; // returned in the first run
+    c[1].mark = 0; // commit 1 returned in the first run
     let mut w = reopen_clean();
+    // Commit 2 never returned and its root did not survive: the writer is back at commit 1 and
+    // will rewrite the torn slot.
     assert!(w.root.heads == Some(c[1].heads));
-    c[2] = NO_COMMIT; // commit 2 never returned and its root did not survive
+    assert!(w.next_root == c[2].slot);
     let b = do_append(&mut w, 9);
-    let c3 = do_commit(&mut w, 3, b);
+    c[2] = do_commit(&mut w, 3, b);
     core::mem::forget(w);
-    c[2] = c3;
     let n: usize = kani::any();
-    reopen_and_check(n, &c, 2, true);
+    reopen_and_check::<Restarted>(n, &c, 2);
 }
 
 /// Crash before create's fallocate + fsync completed: the file is empty or preallocated and
@@ -549,278 +614,21 @@ fn c15_crash_two_commits() {
     c[2] = do_commit(&mut w, 2, a);
     core::mem::forget(w);
     let n: usize = kani::any();
-    reopen_and_check(n, &c, 2, true);
+    reopen_and_check::<Scratch>(n, &c, 2);
 }
 
-// ---- probes (temporary) ----
-fn spin(n: u64) {
-    let mut i = 0u64;
-    while i < n {
-        i += 1;
-    }
-}
-
-#[kani::proof]
-#[kani::unwind(20)]
-fn c15_probe_checksum() {
-    let r = Root {
-        generation: 1,
-        heads: Some(12288),
-        fact_cache: Some(0),
-        free_offset: 12328,
-        checksum: 0,
-    };
-    let c = r.calc_checksum();
-    spin(c & 7);
-    assert!(c != 0);
-}
-
-#[kani::proof]
-#[kani::unwind(20)]
-fn c15_probe_rot() {
-    let x: u64 = 0x1234_5678_9abc_def0;
-    let y = x.rotate_left(13);
-    spin(y & 7);
-    let z = x.wrapping_add(y);
-    spin(z & 7);
-}
-
-#[kani::proof]
-#[kani::unwind(40)]
-fn c15_probe_ser() {
-    let r = Root {
-        generation: 1,
-        heads: Some(12288),
-        fact_cache: Some(0),
-        free_offset: 12328,
-        checksum: 0x1234_5678_9abc_def0,
-    };
-    let v = match postcard::to_allocvec(&r) {
-        Ok(v) => v,
-        Err(_) => panic!(),
-    };
-    spin(v.len() as u64 & 7);
-    core::mem::forget(v);
-}
-
-fn probe_append(w: &mut Writer) -> Result<(u64, u64), StorageError> {
-    let offset = w.root.free_offset;
-    spin(offset as u64 % 5 + 1); // 4
-    let off: u64 = offset
-        .try_into()
-        .assume("`free_offset` can be converted to `u64`")?;
-    spin(off % 5 + 1); // 4
-    let item = 7u64;
-    let bytes = postcard::to_allocvec(&item).map_err(|_| StorageError::IoError)?;
-    spin(bytes.len() as u64 % 5 + 2); // 3
-    let len = i64::try_from(bytes.len()).assume("serialized len fits in `i64`")?;
-    spin(len as u64 % 5 + 3); // 4
-    let end = offset
-        .checked_add(LEN_PREFIX_LEN)
-        .and_then(|o| o.checked_add(len))
-        .assume("append stays within `i64`")?;
-    spin(end as u64 % 5 + 1); // 12293 -> 4
-    w.ensure_capacity(end)?;
-    spin(vf::fs().n as u64 % 5 + 1); // 3
-    let new_offset = w.file.dump_bytes(offset, &bytes)?;
-    spin(new_offset as u64 % 5 + 1); // 4
-    spin(vf::fs().n as u64 % 5 + 1); // 5
-    Ok((item, off))
-}
-
+/// As c15_crash_two_commits, plus the slot/generation relation decided by re-loading both slots.
 #[kani::proof]
 #[kani::unwind(50)]
 #[kani::stub(<StorageError as core::convert::From<buggy::Bug>>::from, no_bug_values)]
 #[kani::stub(aranya_libc::sys::unix::close, close_nop)]
-fn c15_probe_writer() {
+fn c15_crash_two_commits_slots() {
+    let mut c = [NO_COMMIT; 4];
     let mut w = fresh_writer();
-    match probe_append(&mut w) {
-        Ok((_, a)) => spin(a % 5 + 1),
-        Err(_) => panic!(),
-    }
+    c[1] = do_commit(&mut w, 1, 0);
+    let a = do_append(&mut w, 7);
+    c[2] = do_commit(&mut w, 2, a);
     core::mem::forget(w);
-}
-
-#[kani::proof]
-#[kani::unwind(50)]
-fn c15_probe_p1() {
-    let fd = vf::fake_fd();
-    let _ = vf::fallocate(&fd, 0, 0, 20000);
-    spin(vf::fs().n as u64 % 5 + 1); // 2
-    let r = vf::pwrite(&fd, &[1, 2, 3, 4], 12288);
-    spin(vf::fs().n as u64 % 5 + 1); // 3
-    match r {
-        Ok(k) => spin(k as u64 + 1), // 5
-        Err(_) => spin(7),
-    }
-    let r = vf::pwrite(&fd, &[1, 2, 3, 4], 4096);
-    spin(vf::fs().n as u64 % 5 + 1); // 4
-    match r {
-        Ok(k) => spin(k as u64 + 1), // 5
-        Err(_) => spin(7),
-    }
-    core::mem::forget(fd);
-}
-
-#[kani::proof]
-#[kani::unwind(50)]
-fn c15_probe_p3() {
-    let fd = vf::fake_fd();
-    let _ = vf::fallocate(&fd, 0, 0, 20000);
-    let file = File { fd: Arc::new(fd) };
-    let r = file.write_all(12288, &[1, 2, 3, 4]);
-    spin(vf::fs().n as u64 % 5 + 1); // 3
-    match r {
-        Ok(()) => spin(5),
-        Err(_) => spin(7),
-    }
-    core::mem::forget(file);
-}
-
-fn probe_write_all(f: &File, mut offset: i64, mut buf: &[u8]) -> Result<(), StorageError> {
-    while !buf.is_empty() {
-        match libc::pwrite(&f.fd, buf, offset) {
-            Ok(0) => {
-                kani::cover!(true, "P4 zero");
-                return Err(StorageError::IoError);
-            }
-            Ok(n) => {
-                let b2 = buf.get(n..);
-                kani::cover!(b2.is_none(), "P4 get none");
-                buf = b2.assume("`n` is in bounds")?;
-                let t = i64::try_from(n);
-                kani::cover!(t.is_err(), "P4 tryfrom err");
-                let t = t.assume("write within bounds")?;
-                let o2 = offset.checked_add(t);
-                kani::cover!(o2.is_none(), "P4 add none");
-                offset = o2.assume("write within bounds")?;
-            }
-            Err(Errno::EINTR) => {
-                kani::cover!(true, "P4 eintr");
-            }
-            Err(e) => {
-                kani::cover!(true, "P4 err");
-                return Err(e.into());
-            }
-        }
-    }
-    Ok(())
-}
-
-#[kani::proof]
-#[kani::unwind(50)]
-fn c15_probe_p4() {
-    let fd = vf::fake_fd();
-    let _ = vf::fallocate(&fd, 0, 0, 20000);
-    let file = File { fd: Arc::new(fd) };
-    let r = probe_write_all(&file, 12288, &[1, 2, 3, 4]);
-    match r {
-        Ok(()) => spin(5),
-        Err(_) => spin(7),
-    }
-    core::mem::forget(file);
-}
-
-#[inline(never)]
-fn f1() -> Result<(), StorageError> {
-    Ok(())
-}
-#[inline(never)]
-fn f2(x: i64) -> Result<(), StorageError> {
-    if x < 0 {
-        return Err(StorageError::IoError);
-    }
-    Ok(())
-}
-#[inline(never)]
-fn f3(x: Option<i64>) -> Result<i64, StorageError> {
-    let v = x.assume("m")?;
-    Ok(v)
-}
-#[inline(never)]
-fn f4(fd: &OwnedFd) -> Result<(), StorageError> {
-    match libc::pwrite(fd, &[1, 2, 3, 4], 12288) {
-        Ok(0) => return Err(StorageError::IoError),
-        Ok(_) => {}
-        Err(Errno::EINTR) => {}
-        Err(e) => return Err(e.into()),
-    }
-    Ok(())
-}
-#[inline(never)]
-fn f5(fd: &OwnedFd) -> Result<(), StorageError> {
-    match libc::pwrite(fd, &[1, 2, 3, 4], 12288) {
-        Ok(0) => return Err(StorageError::IoError),
-        Ok(_) => {}
-        Err(_) => return Err(StorageError::IoError),
-    }
-    Ok(())
-}
-fn rspin<T>(r: Result<T, StorageError>) {
-    match r {
-        Ok(_) => spin(5),
-        Err(_) => spin(7),
-    }
-}
-
-#[kani::proof]
-#[kani::unwind(50)]
-fn c15_probe_p5() {
-    let fd = vf::fake_fd();
-    let _ = vf::fallocate(&fd, 0, 0, 20000);
-    rspin(f1());
-    spin(11);
-    rspin(f2(5));
-    spin(11);
-    rspin(f3(Some(5)));
-    spin(11);
-    rspin(f4(&fd));
-    spin(11);
-    rspin(f5(&fd));
-    core::mem::forget(fd);
-}
-
-#[inline(never)]
-fn g1(buf: &[u8], n: usize) -> Result<usize, StorageError> {
-    let b = buf.get(n..).assume("`n` is in bounds")?;
-    Ok(b.len())
-}
-#[inline(never)]
-fn g2(n: usize) -> Result<i64, StorageError> {
-    let t = i64::try_from(n).assume("write within bounds")?;
-    Ok(t)
-}
-#[inline(never)]
-fn g3(o: i64, t: i64) -> Result<i64, StorageError> {
-    let t = o.checked_add(t).assume("write within bounds")?;
-    Ok(t)
-}
-#[inline(never)]
-fn g4(buf: &[u8], n: usize) -> Option<usize> {
-    let b = buf.get(n..)?;
-    Some(b.len())
-}
-
-#[kani::proof]
-#[kani::unwind(50)]
-#[kani::stub(<StorageError as core::convert::From<buggy::Bug>>::from, no_bug_values)]
-#[kani::stub(aranya_libc::sys::unix::close, close_nop)]
-fn c15_probe_p6() {
-    rspin(g1(&[1, 2, 3, 4], 2));
-    spin(11);
-    rspin(g1(&[1, 2, 3, 4], 4));
-    spin(12);
-    rspin(g2(4));
-    spin(13);
-    rspin(g3(12288, 4));
-    spin(14);
-    match g4(&[1, 2, 3, 4], 4) {
-        Some(_) => spin(5),
-        None => spin(7),
-    }
-    spin(15);
-    match g4(&[1, 2, 3, 4], 3) {
-        Some(_) => spin(5),
-        None => spin(7),
-    }
+    let n: usize = kani::any();
+    reopen_and_check::<ScratchSlots>(n, &c, 2);
 }
